@@ -42,7 +42,8 @@ CTOR = {
     'GridDropout': dict(base={}, alts={'ratio': [0.3, 1.0], 'holes_number_x': [2], 'holes_number_y': [3], 'holes_number_z': [2],
                                        'shift_x': [1], 'shift_y': [2], 'shift_z': [1], 'random_offset': [True],
                                        'fill_value': [5], 'mask_fill_value': [2],
-                                       '_combo_unit': [dict(unit_size_min=2, unit_size_max=4), dict(unit_size_min=3, unit_size_max=3)]}),
+                                       '_combo_unit': [dict(unit_size_min=2, unit_size_max=4), dict(unit_size_min=3, unit_size_max=3),
+                                                       dict(unit_size_min=3, unit_size_max=8, shift_x=4, shift_y=4, shift_z=4, ratio=0.5)]}),
     'HorizontalFlip': dict(base={}, alts={}),
     'InvertImg': dict(base={}, alts={}),
     'LongestMaxSize': dict(base={'max_size': 9}, alts={'max_size': [16, [8, 14]], 'interpolation': [0, 2, 3]}),
@@ -56,7 +57,12 @@ CTOR = {
                               'min_height': [5], 'min_width': [10], 'min_depth': [20],
                               '_combo_div': [dict(min_height=None, min_width=None, min_depth=None, pad_height_divisor=5,
                                                   pad_width_divisor=4, pad_depth_divisor=3),
-                                             dict(min_height=None, pad_height_divisor=7)]}),
+                                             dict(min_height=None, pad_height_divisor=7)],
+                              # random position with an axis that needs no padding (frame 12 x 10 x 8), and with none at all
+                              '_combo_random': [dict(min_height=12, min_width=13, min_depth=8, position='random'),
+                                                dict(min_height=6, min_width=5, min_depth=4, position='random'),
+                                                dict(min_height=None, min_width=None, min_depth=None, pad_height_divisor=4,
+                                                     pad_width_divisor=5, pad_depth_divisor=3, position='random')]}),
     'PixelDropout': dict(base={}, alts={'dropout_prob': [0.3, 1.0], 'per_channel': [True], 'drop_value': [5, None, 0.5],
                                         'mask_drop_value': [3]}),
     'Posterize': dict(base={}, alts={'num_bits': [4, (2, 6), 1]}, image='uint8'),
